@@ -1,0 +1,10 @@
+//go:build verif
+
+// Machine-checked contracts (gowp, see /verif/DESIGN.md). Comment-only file:
+// nothing here is compiled into the package.
+
+package hint
+
+//@ func (BaseHinter).IsValid
+//@   trusted
+//@   pure
